@@ -15,7 +15,7 @@ claimed = {
    text="Lean 4 proof (kernel-checked, unbounded): for every register state and every byte the bus may return, below every opcode the data sheets define, the code-shaped Impl model instantiated with the opcode table and literals extracted from /repo on this run makes exactly the specification's stores and leaves the specification's registers outside the don't-care masks (interaction-tree refinement, 213 handler theorems + ALU/address lemma library for all operand values). Tie: regenerated table fact re-proved by lake on every run + differential execution of the real cpu package against the compiled model on every opcode of both models; the executable Spec is evaluated on every Go result to produce a concrete failing input. Lifted to executions (C01_path_stores: along every path the implemented step makes exactly the specification's stores) and to runs (C01_run: on every plain bus, from every state, for every number of instructions, the run of the code and the run of the specification's own fetch-decode-execute loop stop the same way in the same registers and memory while the executed path is exactly specified). One open known finding (65C02 BIT #imm) is excluded by exactly its signature (C01_step_partial / Findings.C01 witness).",
    technique="Lean 4 interaction-tree refinement proof + regenerated opcode table + differential correspondence"),
  "C02": dict(
-   text="Lean 4 proof: per instruction the Impl model reports the data-sheet cycles incl. page-cross, branch and decimal penalties for all geometries (C02_step, against the full Spec); run total = start + sum over the executed path, halting BRK adds nothing, reset/continue and split laws by induction on fuel; against the specification's own run loop: counter after a run = counter before + sum of the data-sheet cycles of every executed non-halting instruction (C02_total, on every plain bus while the executed path is exactly specified). Tie: cycle literals and opcode table regenerated from the Go AST on every run (consts_ok, implemented_entry re-proved) + differential single-step execution comparing NumCycles.",
+   text="Lean 4 proof: per instruction the Impl model reports the data-sheet cycles incl. page-cross, branch and decimal penalties for all geometries (C02_step, against the full Spec); run total = start + sum over the executed path, halting BRK adds nothing, reset/continue and split laws by induction on fuel; against the specification's own run loop: counter after a run = counter before + sum of the data-sheet cycles of every executed non-halting instruction (C02_total, on every plain bus while the executed path is exactly specified); CPU6502.Reset as the source has it now leaves the counter at zero (C02_reset_call, over the regenerated statement list of Reset, independent of statement order). Tie: cycle literals and opcode table regenerated from the Go AST on every run (consts_ok, implemented_entry re-proved) + differential single-step execution comparing NumCycles + sequences of RunExt(pc, reset) and Reset() calls on one CPU comparing the reported totals.",
    technique="Lean 4 refinement proof + regenerated cycle literals (rfl) + differential correspondence"),
  "C03": dict(
    text="Lean 4 proof: the tree of bus accesses of every implemented opcode equals the specification's logical accesses (same kind, address, order; no extra, none missing) for every state and bus answer (C03_step, C03_multiset, C03_fetch_once); on any counting bus the counter of every address grows over a run by exactly the accesses the executed instructions issued (C03_run); after a run on a counted bus, and on each of the memory models used as a bus, every per-address / per-physical-byte access statistic equals that of the specification's own run (C03_run_spec, C03_run_machine). Tie: regenerated opcode table + trace-exact differential on a recording bus.",
